@@ -338,6 +338,8 @@ func init() {
 		})
 	}
 	// the same type first used by two threads at once (decode || decode, encode || encode), well-formed and malformed input
+	cs([]string{"dec-custattr-a-ttlv"}, []string{"dec-custattr-b-xml"})
+	cs([]string{"dec-custattr-a-ttlv"}, []string{"dec-custattr-c-json"})
 	cs([]string{"dec-req12-ttlv"}, []string{"dec-req12-ttlv"})
 	cs([]string{"dec-resp13-xml"}, []string{"dec-resp13-xml"})
 	cs([]string{"dec-create14-json"}, []string{"dec-create14-json"})
